@@ -1,9 +1,98 @@
 import QV.Driver.Util
+import QV.Spec.Server
+import QV.Model.Server
 
+/-!
+  group `server`
+    aud <payload> <catalog> <reqhex> <udp> <tcp>   (udp/tcp = response hex | none | panic)
+        model column: `ok`; spec column: `tags:` followed by the comma-separated audit findings
+        (`Cxx:reason`); the check of property Cxx fails on a line whose tags mention Cxx.
+    srv <u|t> <payload> <catalog> <reqhex>          (model of handle_message; see Model/Server.lean)
+-/
 namespace QV.Driver
-open QV
+open QV QV.Spec QV.Spec.Server
 
-/-- ops of group `server` — stub (not built yet) -/
-def serverHandler : Handler := fun _ _ => none
+def parseRec (s : String) : Option Rec :=
+  match s.splitOn "/" with
+  | [o, t, ttl, rd] => do
+    let o ← unhex o
+    let t ← t.toNat?
+    let ttl ← ttl.toNat?
+    let rd ← unhex rd
+    pure ⟨o.toList, t, ttl, rd.toList⟩
+  | _ => none
+
+def parseZone (s : String) : Option ZoneCfg :=
+  match s.splitOn ":" with
+  | [k, apex, cls, glue, recs] => do
+    let kind ← (if k = "L" then some ZoneKind.loaded else if k = "N" then some .notYetLoaded
+                else if k = "F" then some .failedToLoad else none)
+    let apex ← unhex apex
+    let cls ← cls.toNat?
+    let rs ← if recs = "-" then some [] else (recs.splitOn ",").mapM parseRec
+    pure ⟨kind, apex.toList, cls, glue = "1", rs⟩
+  | _ => none
+
+def parseCatalog (s : String) : Option (List ZoneCfg) :=
+  if s = "-" then some [] else (s.splitOn "|").mapM parseZone
+
+def parseResp (s : String) : Option Resp :=
+  if s = "none" then some .none else if s = "panic" then some .panic else (unhex s).map .bytes
+
+def serverHandler : Handler := fun op args =>
+  match op, args with
+  | "aud", [payload, cat, req, u, t] =>
+    match payload.toNat?, parseCatalog cat, unhex req, parseResp u, parseResp t with
+    | some p, some c, some r, some ur, some tr =>
+      let sc := specScan c p r
+      let v := if !sc.respond then "no-response" else match sc.verdict with
+        | .formErr => "formerr" | .badVers => "badvers" | .tsigReached => "tsig" | .notImp => "notimp"
+        | .refused => "refused" | .servFailZone => "servfail-zone" | .answer => "answer"
+      some ("ok", "tags:" ++ ",".intercalate (audit c p r ur tr) ++ s!"#{v}{if sc.edns then "+edns" else ""}")
+    | _, _, _, _, _ => some bad
+  | _, _ => none
+
+end QV.Driver
+
+/-! ### `srv`: the server model -/
+namespace QV.Driver
+open QV QV.Spec.Server
+
+/-- `Rdata::equals` for zone de-duplication -/
+def srvEqv : Zone.Eqv := fun c t a b =>
+  match Rdata.equals c t a.toArray b.toArray with
+  | .ok r => r
+  | _ => false
+
+def mkZoneEntry (z : ZoneCfg) : Option Server.ZoneEntry := do
+  let (apexW, rest) ← Writer.WName.parse z.apex
+  if rest ≠ [] then none
+  let apexN ← NameL.ofWire z.apex
+  let kind := match z.kind with
+    | .loaded => Catalog.Kind.Loaded | .notYetLoaded => .NotYetLoaded | .failedToLoad => .FailedToLoad
+  let z0 := Zone.Zone.new apexN z.cls (if z.glueWide then .wide else .narrow)
+  let recs ← z.recs.mapM (fun r => do
+    let o ← NameL.ofWire r.owner
+    pure (⟨o, r.ty, z.cls, Writer.ttlFrom r.ttl, r.rdata⟩ : Zone.Rec))
+  pure ⟨apexW, z.cls, kind, Zone.build srvEqv z0 recs⟩
+
+def srvHandler : Handler := fun op args =>
+  match op, args with
+  | "srv", [tr, payload, cat, req] =>
+    match payload.toNat?, parseCatalog cat, unhex req with
+    | some p, some c, some r =>
+      match c.mapM mkZoneEntry with
+      | some zs =>
+        let cfg : Server.Cfg := { payload := p, zones := zs }
+        let t := if tr = "t" then Server.Transport.tcp else .udp
+        let res := match Server.handleMessage cfg t 0 65535 r with
+          | .ok (some b) => hexOf b
+          | .ok none => "none"
+          | .err _ => "err"
+          | .panic => "panic"
+        some (res, "-")
+      | none => some bad
+    | _, _, _ => some bad
+  | _, _ => none
 
 end QV.Driver
